@@ -348,6 +348,13 @@ def plan_text_cases(draw: Any, have: tuple[str, ...] = TTP_NAMES) -> dict:
     name = draw(st.sampled_from(have))
     n = int("".join(c for c in name if c.isdigit()))
     days = 2 * (n - 1)
+    if draw(st.integers(0, 2)) == 0:
+        # an instance from the public constructor with 1..4 rounds (all
+        # shipped instances are double round robins) and 4..14 or 128 teams
+        n = draw(st.sampled_from([4, 4, 6, 6, 8, 10, 12, 14, 128]))
+        rounds = draw(st.sampled_from([1, 1, 3, 3, 2, 4])) if n < 128 else 1
+        days = rounds * (n - 1)
+        name = {"n": n, "rounds": rounds}
     mode = draw(st.sampled_from(["rng", "rng", "const", "drawn"]))
     if mode == "const":
         v = draw(st.sampled_from([-n, n, 0, 1, -1]))
@@ -471,4 +478,5 @@ def record_tables(draw: Any, max_recs: int = 12,
             "t_extra": draw(st.integers(0, 5000)),
             "goal": goal, "max_fes_extra": mfe, "max_t": mt})
     return {"insts": insts, "recs": recs, "goal_mode": goal_mode,
-            "custom": custom}
+            "custom": custom,
+            "key_order": draw(st.sampled_from([0, 0, 1, 2]))}
